@@ -23,12 +23,13 @@ open XalanModel.Generated.C11 (Op)
 /-- strings: UTF-16 code units -/
 abbrev Str := List Nat
 
-/-- XObject value (boolean / number / string / node-set; result-tree fragments are not modelled) -/
+/-- XObject value (boolean / number / string / node-set / result tree fragment, the latter by its string-value) -/
 inductive Val (N : Type) where
   | bool (b : Bool)
   | num (x : N)
   | str (s : Str)
   | nodes (l : List Nat)       -- node ids, in the order the implementation holds them
+  | rtf (s : Str)              -- XResultTreeFrag: boolean() is true, number()/string() go through its string-value
 deriving Repr
 
 inductive CmpOp where | ne | eq | le | lt | ge | gt
@@ -76,6 +77,7 @@ def toBool : Val N → Bool
   | .num x => P.n2b x
   | .str s => !s.isEmpty
   | .nodes l => !l.isEmpty
+  | .rtf _ => true
 
 def nodesStr : List Nat → Str
   | [] => []
@@ -86,12 +88,14 @@ def toStr : Val N → Str
   | .num x => P.n2s x
   | .str s => s
   | .nodes l => nodesStr P l
+  | .rtf s => s
 
 def toNum : Val N → N
   | .bool b => P.b2n b
   | .num x => x
   | .str s => P.s2n s
   | .nodes l => P.s2n (nodesStr P l)
+  | .rtf s => P.s2n s
 
 /-- what an entry point delivers -/
 inductive Res (N : Type) where
@@ -121,6 +125,20 @@ def stdConv (ep : EP) (buf : Str) (v : Val N) : Res N :=
   | .nodes => match v with
     | .nodes l => .nodes false l
     | _ => .err
+
+/-! ### character events
+`Res.chars` records the *concatenation* of the `characters` calls.  How the text is cut into calls is not part of the
+value: a node-set's string arrives as one call per text node (`DOMServices::getNodeData`) or — once the object has
+memoised its string — as a single call; the empty string arrives as no call at all. -/
+
+/-- a cut of `s` into events as any entry point may deliver it -/
+def AdmissibleEvents (s : Str) (evs : List Str) : Prop := evs.flatten = s ∧ ∀ e ∈ evs, e ≠ []
+
+/-- the two cuts the code produces: per text node of the first node (fresh node-set), or the whole string at once -/
+def eventsOf (nodeChunks : Nat → List Str) (memoised : Bool) (v : Val N) : List Str :=
+  match v, memoised with
+  | .nodes (n :: _), false => nodeChunks n
+  | v, _ => if (toStr P v).isEmpty then [] else [toStr P v]
 
 def convOpt (ep : EP) (buf : Str) : Option (Val N) → Res N
   | some v => stdConv P ep buf v
